@@ -11,9 +11,9 @@ CLAIMED = {
   "Complete decision of the table clause: the embedded ACTION/GOTO switches are flattened into (state, symbol) tables and compared entry for entry, modulo a bijective state renaming, with LALR(1) tables the checker builds itself from the grammar variables of the same file under the documented precedence rules; no default actions; documented precedences and documented EBNF rules equal the extracted grammar; the generator's copies are not stale; the driver obeys the LR protocol (SSA). Acceptance of exactly the documented language then rests on LR theory. Byte-for-byte regeneration is decided only up to header/token equality and clause order.",
   "Trusted: the checker's own LR(1)/LALR(1) construction, LR parsing theory, go/types constant evaluation, the documented precedence semantics. State numbers are the dependency's choice (comparison is modulo renaming).",
   "DESIGN.md §4 C04"),
- "C05": ("proof",
+ "C05": ("other",
   "decision-table flattening of advanceDFA/evalDFA + Moore-machine equivalence against a reference built from the documented token table; AST/SSA rules for lexeme, consume-once, scan loop",
-  "Complete decision of the transition/acceptance clause: every (state, code point interval) pair over all of Unicode and every accepting state is compared by product exploration with a reference machine the checker builds from docs/5-definitions.md plus the property's layout/comment clauses; lexeme operation, single consumption, position source and the retract/evaluate protocol of NextToken are decided structurally. One recorded finding (single-letter TOKEN) keeps the evidence level at 'other' until repaired.",
+  "Complete decision of the transition/acceptance clause: every (state, code point interval) pair over all of Unicode and every accepting state is compared by product exploration with a reference machine the checker builds from docs/5-definitions.md plus the property's layout/comment clauses; lexeme operation, single consumption, position source and the retract/evaluate protocol of NextToken are decided structurally. Claimed as 'other' rather than 'proof' because one obligation is a recorded genuine finding (single-letter TOKEN), so not every obligation is discharged.",
   "Trusted: checker's regex->DFA engine; the dependency's input buffer returns the lexeme start as position; docs token table. REGEX is taken to exclude forms that start a comment (docs/6-design.md).",
   "DESIGN.md §4 C05"),
 }
